@@ -152,3 +152,13 @@ package server
 //@   ensures[drained@C15] cc(s).inFragQueue.count == 0
 //@   loop 0
 //@     invariant s != nil && cc(s).inFragQueue != nil && core.fwf(cc(s).inFragQueue)
+
+// ---- admission (C18): a client is refused iff the whitelist is on and the host part of its address is not listed ----
+//@ use strs
+//@ define peerhost(c) = ite(splitok(cc(c).raddr), hostof(cc(c).raddr), cc(c).raddr)
+
+//@ func listenServer.OnCOpened
+//@   props C18
+//@   requires c != nil
+//@   ensures[admit@C18] (action == core.Close) == (authip.IpMap.enable && !authip.admitted(peerhost(c)))
+//@   ensures[silent@C18] out == nil && (action == core.Close || action == core.None)
